@@ -236,32 +236,36 @@ def rule_TUPLE(ctx):
     ctx.require(convs, 'Prior.add_parameter: conversion of a tuple declaration not found')
     conv = convs[0]
     dname = conv.ast.targets[0].id if isinstance(conv.ast.targets[0], ast.Name) else 'dist'
-    # rejecting tests that dominate the conversion
+    # what is known when the conversion runs: the facts of its guards (polarity-normalised)
     len_ok = order_ok = False
-    for t in cfg.nodes:
-        if t.kind != 'test' or t.expr is None or not cfg.dominates(t.id, conv.id):
+    for atom, text, truth in cfg.facts(conv.id):
+        if not (isinstance(atom, ast.Compare) and len(atom.ops) == 1):
             continue
-        raises = any(cfg.nodes[s_].kind == 'stmt' and isinstance(cfg.nodes[s_].ast, ast.Raise)
-                     or any(isinstance(cfg.nodes[r_].ast, ast.Raise)
-                            for r_ in cfg.reach(s_) if cfg.nodes[r_].kind == 'stmt' and
-                            not cfg.can_reach(r_, conv.id))
-                     for s_, lab in t.succ if lab in (True, False))
-        if not raises:
-            continue
-        for x in ast.walk(t.expr):
-            if isinstance(x, ast.Compare) and len(x.ops) == 1:
-                sides = [x.left, x.comparators[0]]
-                if any(isinstance(sd, ast.Call) and dotted(sd.func) == 'len' and sd.args and
-                       isinstance(sd.args[0], ast.Name) and sd.args[0].id == dname
-                       for sd in sides) and any(isinstance(sd, ast.Constant) and sd.value == 2
-                                                for sd in sides):
-                    len_ok = True
-                subs = [sd for sd in sides if isinstance(sd, ast.Subscript) and
-                        isinstance(sd.value, ast.Name) and sd.value.id == dname and
-                        isinstance(sd.slice, ast.Constant)]
-                if len(subs) == 2 and {sd.slice.value for sd in subs} == {0, 1} and \
-                        isinstance(x.ops[0], (ast.Lt, ast.LtE, ast.Gt, ast.GtE)):
-                    order_ok = True
+        l_, r_, op = atom.left, atom.comparators[0], type(atom.ops[0])
+
+        def is_len(e):
+            return isinstance(e, ast.Call) and dotted(e.func) == 'len' and e.args and \
+                isinstance(e.args[0], ast.Name) and e.args[0].id == dname
+
+        def is_two(e):
+            return isinstance(e, ast.Constant) and e.value == 2 and not isinstance(e.value, bool)
+        if (is_len(l_) and is_two(r_)) or (is_len(r_) and is_two(l_)):
+            if (op is ast.Eq and truth is True) or (op is ast.NotEq and truth is False):
+                len_ok = True
+
+        def idx(e):
+            if isinstance(e, ast.Subscript) and isinstance(e.value, ast.Name) and \
+                    e.value.id == dname and isinstance(e.slice, ast.Constant):
+                return e.slice.value
+            return None
+        a_, b_ = idx(l_), idx(r_)
+        if {a_, b_} == {0, 1}:
+            # normalise to a statement about dist[0] ? dist[1]
+            if a_ == 1:
+                op = {ast.Lt: ast.Gt, ast.Gt: ast.Lt, ast.LtE: ast.GtE, ast.GtE: ast.LtE}.get(op, op)
+            # known: dist[0] < dist[1]   <=>  (Lt, True) or (GtE, False)
+            if (op is ast.Lt and truth is True) or (op is ast.GtE and truth is False):
+                order_ok = True
     ctx.ob(rid, 'Prior.add_parameter:tuple-length-checked', len_ok, f.where(conv.ast),
            'a tuple with other than two entries is rejected before the conversion' if len_ok else
            'a tuple declaration is converted with `%s` without its length being checked: '
